@@ -26,6 +26,9 @@ static ALLOC: Counting = Counting;
 
 /// whole text files up to this size are also evaluated by the model of the whole parser
 const TEXT_CASE_MAX_BYTES: usize = 4096;
+/// class files up to this size are candidates for the whole-reader model (coq/C16/ModelClsRead.v): the cost of
+/// a case is its literal (about 0.1 ms per byte in coqc), not the evaluation
+const CLASS_CASE_MAX_BYTES: usize = 4096;
 pub const K_MDESC: u8 = 6;
 pub const K_RDESC: u8 = 7;
 
@@ -503,7 +506,9 @@ pub fn run(ctx: &Ctx) -> anyhow::Result<Report> {
 	let mut light_cases: Vec<(&'static str, String)> = vec![];
 	let mut heavy_cases: Vec<(&'static str, String)> = vec![];
 	let mut text_cases: Vec<(&'static str, String)> = vec![];
-	for (inp, o) in inputs.iter().zip(outs.iter()) {
+	// whole class files for the model of the WHOLE reader: (stream, index of the input, observed outcome class)
+	let mut class_cases: BTreeMap<&'static str, Vec<(usize, &'static str)>> = BTreeMap::new();
+	for (k_inp, (inp, o)) in inputs.iter().zip(outs.iter()).enumerate() {
 		let bytes = inp.bytes(&bases);
 		let kname = match inp.kind { K_MDESC | K_RDESC => "descriptor", k => KIND_NAMES[k as usize] };
 		let mem_bad = o.peak > mem_bound(bytes.len()) || o.big as u64 > mem_bound(bytes.len());
@@ -541,6 +546,13 @@ pub fn run(ctx: &Ctx) -> anyhow::Result<Report> {
 				e.count += 1;
 				if bytes.len() < e.len { e.len = bytes.len(); e.what = format!("{fk}: {detail} — {}", inp.label); e.replay = replay; e.known = known; }
 			}
+		}
+		// the whole class file against the model of the whole reader: what duke::read_class answered (a panic of
+		// one of the other visitors, a crash, a timeout or a heap use unrelated to the input counts as RPanic);
+		// the streams that are about the open known finding F17 (heap) and the 65536-step budget cases stay out
+		if inp.kind == K_CLASS && bytes.len() <= CLASS_CASE_MAX_BYTES && !bytes.is_empty() && !matches!(inp.stream, "case-shared-arguments" | "case-bootstrap-multi" | "regression") {
+			let tok = if (o.res.bad() && o.confirmed) || mem_bad { "RPanic" } else if o.res == Res::Ok { "ROk" } else { "RErr" };
+			class_cases.entry(inp.stream).or_default().push((k_inp, tok));
 		}
 		// correspondence case
 		if let Some(prefix) = &inp.case {
@@ -581,6 +593,43 @@ pub fn run(ctx: &Ctx) -> anyhow::Result<Report> {
 		let step = (rest.len() / take_rest.max(1)).max(1);
 		for c in must { light_cases.push(c); }
 		for (i, c) in rest.into_iter().enumerate() { if i % step == 0 { light_cases.push(c); } }
+	}
+	{
+		// whole-class cases: per stream an even sample up to a count, the whole under a byte budget
+		let quota = |stream: &str| -> usize {
+			let q = match stream {
+				"class-valid" | "class-hostile-base" => 200, "class-targeted" => 700, "class-exact-counts" => 60,
+				"class-field-mutation" => 1300, "class-truncation" => 700, "class-random-edit" => 500,
+				"class-hostile-strings" => 250, "class-mutf8-exhaustive" => 300,
+				"case-scan" => 700, "case-range" => 200, "case-frames" => 120, "case-bootstrap" => 120, "case-nesting" => 100,
+				_ => 100,
+			};
+			if ctx.thorough { q * 4 } else { q }
+		};
+		let mut byte_budget: usize = if ctx.thorough { 12 << 20 } else { 2600 << 10 };
+		for (stream, list) in &class_cases {
+			let take = quota(stream).min(list.len());
+			let step = (list.len() / take.max(1)).max(1);
+			for (j, &(k, tok)) in list.iter().enumerate() {
+				if j % step != 0 { continue; }
+				let bytes = inputs[k].bytes(&bases);
+				if bytes.len() > byte_budget { continue; }
+				byte_budget -= bytes.len();
+				light_cases.push((stream, format!("CClass {} {tok}", gnums(bytes.iter().map(|&x| x as u64)))));
+				r.count(&format!("class-case:{tok}"));
+				r.count_n("class-case-bytes", bytes.len() as u64);
+			}
+		}
+	}
+	{
+		// the class cases are heavy in bytes: spread them over the shards
+		let n = light_cases.len();
+		let mut order: Vec<usize> = (0..n).collect();
+		let shards = (n / 350).max(1);
+		order.sort_by_key(|&i| (i % shards, i));
+		let mut slots: Vec<Option<(&'static str, String)>> = light_cases.into_iter().map(Some).collect();
+		light_cases = order.into_iter().filter_map(|i| slots[i].take()).collect();
+		r.shard_size = 350;
 	}
 	{
 		let every = (light_cases.len() / heavy_cases.len().max(1)).max(1);
